@@ -101,12 +101,6 @@ func StepTotal() {
 	endRunes := verifrt.Peek(&e.lx, "endRunes")
 	line := verifrt.Peek(&e.lx, "line")
 	ls := verifrt.Peek(&e.lx, "lineStartRunes")
-	verifrt.Assert(end >= e.p && end <= e.n, "C01.cursor-in-bounds")
-	verifrt.Assert(endRunes >= e.r0 && endRunes-e.r0 <= end-e.p, "C01.chars-le-bytes")
-	verifrt.Assert(line >= e.l0 && ls <= endRunes && ls >= e.ls0, "C01.line-counters")
-	if end > 0 && end < e.n {
-		verifrt.Assert(!(e.in[end-1] == '\r' && e.in[end] == '\n'), "C01.never-between-crlf")
-	}
 	if err != nil {
 		verifrt.Cover("C01.error")
 		verifrt.Cover("C20.lexer-error")
@@ -118,14 +112,23 @@ func StepTotal() {
 			verifrt.Assert(len(gerr.Locations) == 1, "C20.one-location")
 			if len(gerr.Locations) == 1 {
 				loc := gerr.Locations[0]
+				// first: an assertion that fails cuts its path, and the check of a property sees only its own labels
+				verifrt.Assert(loc.Line >= 1 && loc.Column >= 1, "C20.location-positive")
 				verifrt.Assert(loc.Line >= e.l0 && loc.Line <= e.l0+terminators(e.in, e.p), "C01.error-line-inside")
 				verifrt.Assert(loc.Column >= 1 && loc.Column <= (e.r0-e.ls0)+(e.n-e.p)+1, "C01.error-column-inside")
 				verifrt.Assert(loc.Line == tok.Pos.Line && loc.Column == tok.Pos.Column, "C04.error-loc-is-token-pos")
-				verifrt.Assert(loc.Line >= 1 && loc.Column >= 1, "C20.location-positive")
 			}
 			file, _ := gerr.Extensions["file"].(string)
 			verifrt.Assert(file == "s.graphql", "C20.file")
 		}
+	}
+	verifrt.Assert(end >= e.p && end <= e.n, "C01.cursor-in-bounds")
+	verifrt.Assert(endRunes >= e.r0 && endRunes-e.r0 <= end-e.p, "C01.chars-le-bytes")
+	verifrt.Assert(line >= e.l0 && ls <= endRunes && ls >= e.ls0, "C01.line-counters")
+	if end > 0 && end < e.n {
+		verifrt.Assert(!(e.in[end-1] == '\r' && e.in[end] == '\n'), "C01.never-between-crlf")
+	}
+	if err != nil {
 		return
 	}
 	verifrt.Assert(tok.Kind != lexer.Invalid, "C01.err-iff-invalid")
